@@ -87,6 +87,8 @@ def analyze(case, seed=0, fault_at=None, fault_kind="raise"):
         if rec["summary"] is None:
             continue
         eid = rec["patch"].eid
+        if eid >= 1000:
+            continue    # body of an inserted function (C06 checks its bytes)
         e = case["edits"][eid]
         want = b"".join(
             t.data for t in a.lst.patch_tokens(e["p"]["lines"], eid, None))
